@@ -679,7 +679,7 @@ class ParamInit(Contract):
     qualname = ACT + "ParameterisedActionSpace.__init__"
     callable_by_contract = False
     bounded = False
-    tags = {"": ("C10", "C11")}
+    tags = {"": ("C10", "C11", "C12", "C14")}
 
     def setup(self, I, variant):
         sig = sig_setup(I)
@@ -713,7 +713,7 @@ class FlatInit(Contract):
     qualname = ACT + "FlatActionSpace.__init__"
     callable_by_contract = False
     bounded = False
-    tags = {"": ("C10", "C11")}
+    tags = {"": ("C10", "C11", "C12", "C14")}
 
     def setup(self, I, variant):
         sig = sig_setup(I)
@@ -747,7 +747,7 @@ class EnvInit(Contract):
     callable_by_contract = False
     bounded = False
     global_writes_allowed = ("nasim.envs.host_vector.HostVector",)
-    tags = {"": ("C10", "C19", "C09", "C04")}
+    tags = {"": ("C10", "C19", "C09", "C04", "C12", "C14")}
 
     def variants(self):
         return ["flat-actions", "param-actions"]
